@@ -385,16 +385,22 @@ def _w_points(_):
                 if not close(got, want, 1e-12):
                     t.violation(f"transform_points(2D, translate={translate}) differs from homogeneous multiplication", dict(case, translate=translate), {"got": got, "want": want})
     # scale_and_translate, is_rigid, fix_rigid
-    for sc, tr in itertools.product([None, 2.0, (1, 2, 3)], [None, (1, 2, 3)]):
+    # every factor pattern (all one, some exactly one, none one) in every container the argument may come in
+    patterns = [None, 2.0, 1.0, (1, 2, 3), (2, 1, 1), (1, 1, 3), (1, 1, 1), (2, 3, 4), (-1, 1, 2)]
+    scales = list(patterns)
+    for pat in patterns:
+        if isinstance(pat, tuple):
+            scales += [np.array(pat, dtype=float), np.array(pat, dtype=np.int64), list(pat)]
+    for sc, tr in itertools.product(scales, [None, (1, 2, 3), np.array([0.0, 0.0, 0.0]), np.array([1.0, 0.0, -2.0])]):
         M = T.scale_and_translate(scale=sc, translate=tr)
         want = np.eye(4)
         if sc is not None:
-            want[:3, :3] = np.diag(np.ones(3) * sc)
+            want[:3, :3] = np.diag(np.ones(3) * np.asarray(sc, dtype=float))
         if tr is not None:
             want[:3, 3] = tr
         t.evaluations += 1
         if not close(M, want):
-            t.violation("scale_and_translate differs from diag(scale) with translation", {"family": "scale_translate", "scale": sc, "translate": tr}, {"got": M})
+            t.violation("scale_and_translate differs from diag(scale) with translation", {"family": "scale_translate", "scale": np.asarray(sc).tolist() if sc is not None else None, "scale_type": type(sc).__name__, "translate": np.asarray(tr).tolist() if tr is not None else None}, {"got": M})
     for M in mats3:
         rigid = np.abs(M[:3, :3] @ M[:3, :3].T - np.eye(3)).max() < 1e-8 and np.linalg.det(M[:3, :3]) > 0
         t.evaluations += 1
